@@ -7,6 +7,26 @@ use crate::dag::{node_name, Dag, Kind, Op};
 
 pub type Facts = BTreeMap<(String, Vec<Vec<u8>>), Vec<u8>>;
 
+/// Growable bitset (graphs of any size).
+#[derive(Clone, Debug, Default, PartialEq, Eq)]
+pub struct Bits(pub Vec<u64>);
+impl Bits {
+    pub fn new(n: usize) -> Self {
+        Bits(vec![0; n.div_ceil(64)])
+    }
+    pub fn set(&mut self, i: usize) {
+        self.0[i / 64] |= 1 << (i % 64);
+    }
+    pub fn get(&self, i: usize) -> bool {
+        self.0.get(i / 64).map(|w| w >> (i % 64) & 1 == 1).unwrap_or(false)
+    }
+    pub fn or_with(&mut self, o: &Bits) {
+        for (a, b) in self.0.iter_mut().zip(&o.0) {
+            *a |= *b;
+        }
+    }
+}
+
 #[derive(Clone, Copy, Debug, PartialEq, Eq)]
 pub enum Fail {
     Rejected,
@@ -87,7 +107,7 @@ fn key(dag: &Dag, ids: &[aranya_runtime::CmdId], i: usize) -> (u8, u32, aranya_r
 pub struct Ref<'a> {
     pub dag: &'a Dag,
     pub ids: Vec<aranya_runtime::CmdId>,
-    pub anc: Vec<u128>,
+    pub anc: Vec<Bits>,
     /// children lists
     pub children: Vec<Vec<usize>>,
     state: Vec<Option<Result<Facts, BraidError>>>,
@@ -101,11 +121,21 @@ impl<'a> Ref<'a> {
                 children[p].push(i);
             }
         }
-        Ref { dag, ids: dag.ids(), anc: dag.ancestors(), children, state: vec![None; dag.len()] }
+        let n = dag.len();
+        let mut anc: Vec<Bits> = Vec::with_capacity(n);
+        for node in &dag.nodes {
+            let mut m = Bits::new(n);
+            for &p in &node.parents {
+                m.or_with(&anc[p]);
+                m.set(p);
+            }
+            anc.push(m);
+        }
+        Ref { dag, ids: dag.ids(), anc, children, state: vec![None; n] }
     }
 
     pub fn is_ancestor(&self, a: usize, b: usize) -> bool {
-        self.anc[b] >> a & 1 == 1
+        self.anc[b].get(a)
     }
 
     /// Reverse-Kahn braid of a set of pairwise-incomparable heads. Returns `(base, order)`:
@@ -117,13 +147,14 @@ impl<'a> Ref<'a> {
             return Ok((heads[0], vec![]));
         }
         // region = ancestors-or-self of heads
-        let mut region = 0u128;
+        let mut region = Bits::new(self.dag.len());
         for &h in heads {
-            region |= self.anc[h] | 1 << h;
+            region.or_with(&self.anc[h]);
+            region.set(h);
         }
         // remaining in-region children not yet popped
         let mut pending: Vec<usize> = (0..self.dag.len())
-            .map(|i| self.children[i].iter().filter(|&&c| region >> c & 1 == 1).count())
+            .map(|i| self.children[i].iter().filter(|&&c| region.get(c)).count())
             .collect();
         let mut strands: Vec<usize> = heads.to_vec();
         let fin = |s: &[usize]| s.iter().filter(|&&i| self.dag.nodes[i].kind == Kind::Finalize).count();
